@@ -5,6 +5,7 @@ import (
 	"encoding/json"
 	"fmt"
 	"math/big"
+	"os"
 
 	sdkmath "cosmossdk.io/math"
 	"github.com/ethereum/go-ethereum/common"
@@ -43,7 +44,8 @@ import (
 //     gas charged = receipt gas used for committed txs, the full gas limit for txs failing after admission, 0 if not admitted
 //   - fee collector balance after the block == Σ gas charged × effective price (the previous balance is swept in BeginBlock)
 //   - the receipt reports the reference effective price; GasWanted == limit; consensus gas used == receipt gas used;
-//     intrinsic <= gas used <= limit; cumulative gas is the running sum
+//     intrinsic <= gas used <= limit, the intrinsic gas being the harness's own formula over the fields the tx was built from
+//     (c05_accesslist.go: base, call data bytes, access list); cumulative gas is the running sum
 //   - the history without the non-admitted txs reaches the same AppHashes
 
 // c05Amt is  B × (base fee in force) + Abs  wei.
@@ -70,9 +72,14 @@ type c05FmTx struct {
 	Sender   int    `json:"sender"`
 	Fee      c05Fee `json:"fee"`
 	GasLimit uint64 `json:"gas_limit"`
+	// AL names the EIP-2930 access list of the tx (c05_accesslist.go); "" or "none" = none. Only for tx types al and dyn.
+	AL string `json:"al,omitempty"`
 }
 
 func (t c05FmTx) String() string {
+	if t.AL != "" {
+		return fmt.Sprintf("%s/w%d/%s/access-list=%s/gas=%d", t.Kind, t.Sender, t.Fee.Name, t.AL, t.GasLimit)
+	}
 	return fmt.Sprintf("%s/w%d/%s/gas=%d", t.Kind, t.Sender, t.Fee.Name, t.GasLimit)
 }
 
@@ -133,6 +140,9 @@ func c05Behaviour(kind string) (to *common.Address, data []byte, value *big.Int)
 	case "transfer", "intrinsic-low":
 		set(AddrSink)
 		value = big.NewInt(3)
+	case "call-data":
+		set(AddrSstore)
+		data = []byte{0xde, 0x00, 0xbe, 0xef, 0x00} // 3 non-zero + 2 zero bytes of call data; the contract ignores them
 	case "sclear":
 		set(AddrSclear)
 	case "revert-with-value":
@@ -283,14 +293,18 @@ func c05FmRun(c c05FmCase) (w *world.World, blocks []*c05FmBlock) {
 			nonce := next[s.Sender]
 			next[s.Sender]++ // optimistic; a later tx of the same sender after a non-admitted one is itself not admitted
 			to, data, value := c05Behaviour(s.Kind)
+			al := c05AccessList(s.AL, to, a.Eth(), nonce)
 			var td ethtypes.TxData
 			switch s.Fee.Typ {
 			case "legacy":
+				if al != nil {
+					panic("c05: a legacy tx has no access list: " + s.String())
+				}
 				td = &ethtypes.LegacyTx{Nonce: nonce, GasPrice: cap, Gas: s.GasLimit, To: to, Value: value, Data: data}
 			case "al":
-				td = &ethtypes.AccessListTx{ChainID: big.NewInt(world.EvmChainID), Nonce: nonce, GasPrice: cap, Gas: s.GasLimit, To: to, Value: value, Data: data}
+				td = &ethtypes.AccessListTx{ChainID: big.NewInt(world.EvmChainID), Nonce: nonce, GasPrice: cap, Gas: s.GasLimit, To: to, Value: value, Data: data, AccessList: al}
 			case "dyn":
-				td = &ethtypes.DynamicFeeTx{ChainID: big.NewInt(world.EvmChainID), Nonce: nonce, GasTipCap: tip, GasFeeCap: cap, Gas: s.GasLimit, To: to, Value: value, Data: data}
+				td = &ethtypes.DynamicFeeTx{ChainID: big.NewInt(world.EvmChainID), Nonce: nonce, GasTipCap: tip, GasFeeCap: cap, Gas: s.GasLimit, To: to, Value: value, Data: data, AccessList: al}
 			default:
 				panic("c05: tx type " + s.Fee.Typ)
 			}
@@ -303,7 +317,7 @@ func c05FmRun(c c05FmCase) (w *world.World, blocks []*c05FmBlock) {
 				if merr != nil {
 					panic(merr)
 				}
-				twin := w.SignEth(a, &ethtypes.DynamicFeeTx{ChainID: big.NewInt(world.EvmChainID), Nonce: nonce, GasTipCap: cap, GasFeeCap: cap, Gas: s.GasLimit, To: to, Value: value, Data: data})
+				twin := w.SignEth(a, &ethtypes.DynamicFeeTx{ChainID: big.NewInt(world.EvmChainID), Nonce: nonce, GasTipCap: cap, GasFeeCap: cap, Gas: s.GasLimit, To: to, Value: value, Data: data, AccessList: al})
 				bz, err = w.WrapEthE(twin, a.Eth(), func(msg *evmtypes.MsgEthereumTx) { msg.MarshalledTx = real })
 			}
 			if err != nil {
@@ -386,9 +400,12 @@ func c05FmOracle(c c05FmCase, w *world.World, blocks []*c05FmBlock) []ev.Finding
 				if uint64(t.GasUsedR) != g {
 					fail("consensus-gas-used-equals-receipt", "", fmt.Sprintf("%s: ExecTxResult.GasUsed=%d receipt=%d", where, t.GasUsedR, g))
 				}
-				intrinsic, err := core.IntrinsicGas(t.Eth.Data(), t.Eth.AccessList(), t.Eth.To() == nil, true, true)
-				if err != nil {
-					fail("intrinsic", "", where+": "+err.Error())
+				// the reference intrinsic gas comes from the fields the tx was BUILT from (c05RefIntrinsic), not from the code path
+				// under test; go-ethereum's formula on the decoded tx only cross-checks the harness's own arithmetic and builder
+				intrinsic := c05RefIntrinsic(t.Spec)
+				if geth, err := core.IntrinsicGas(t.Eth.Data(), t.Eth.AccessList(), t.Eth.To() == nil, true, true); err != nil || geth != intrinsic {
+					fmt.Fprintf(os.Stderr, "HARNESS-ERROR: C05 reference intrinsic gas of %s is %d, go-ethereum says %d (%v)\n", t.Spec, intrinsic, geth, err)
+					os.Exit(2)
 				}
 				if g < intrinsic || g > limit {
 					fail("intrinsic-le-gas-used-le-limit", "", fmt.Sprintf("%s: used=%d intrinsic=%d limit=%d", where, g, intrinsic, limit))
@@ -627,6 +644,8 @@ func c05FmCases(thorough bool) []c05FmCase {
 			}
 		}
 	}
+	// 5., 6. the access-list dimension (c05_accesslist.go)
+	cases = append(cases, c05ALCases(thorough, worlds)...)
 	return cases
 }
 
@@ -635,7 +654,7 @@ func c05FmSanity(c c05FmCase, blocks []*c05FmBlock) []ev.Finding {
 	var out []ev.Finding
 	for bi, b := range blocks {
 		for i, t := range b.Txs {
-			if !t.Built || t.Spec.Kind != "transfer" || t.Spec.GasLimit < 21_000 || i > 0 {
+			if !t.Built || t.Spec.Kind != "transfer" || t.Spec.GasLimit < c05RefIntrinsic(t.Spec) || i > 0 {
 				continue
 			}
 			floor := new(big.Int).Set(b.BaseFee) // the lowest price the chain accepts: the larger of base fee and global min gas price
@@ -650,5 +669,5 @@ func c05FmSanity(c c05FmCase, blocks []*c05FmBlock) []ev.Finding {
 			}
 		}
 	}
-	return out
+	return append(out, c05ALSanity(c, blocks)...)
 }
